@@ -133,6 +133,10 @@ RangeKey(a, b) == LET r == RangeEvent(a, b) IN
 (***************************************************************************)
 (* the evaluator                                                           *)
 (***************************************************************************)
+(* listeners that raise a host exception: env.raises, a sequence of strings  *)
+(* "var:<name>", "fn:<NAME>", "cell:*", "range:*" (optional field)          *)
+RaisesAt(env, tag) == IF "raises" \in DOMAIN env THEN \E i \in 1..Len(env.raises) : env.raises[i] = tag ELSE FALSE
+
 RECURSIVE Ev(_, _), EvSeq(_, _)
 
 (* evaluates a sequence of nodes left to right; stops at the first abort   *)
@@ -148,12 +152,16 @@ CallExpect(f, es, env) ==
       fnEv == [k |-> "fn", name |-> f, args |-> args]
       over(dflt) == LET sv == LastNonBlank(SetVals(env.fnsets, f), Blank)
                     IN IF IsBlank(sv) THEN dflt ELSE OfVal(sv)
-  IN IF f \in DOMAIN env.funcs
+  IN IF RaisesAt(env, "fn:" \o f) /\ (f \in DOMAIN env.funcs \/ f \in Builtins)
+     THEN AbM("#ERROR!", <<fnEv>>, TRUE)
+     ELSE IF f \in DOMAIN env.funcs
      THEN LET c == env.funcs[f] IN
           CASE c.mode = "const" -> R(over(OfVal(c.v)), <<fnEv>>)
             [] c.mode = "arg" -> R(over(IF c.i <= Len(es) THEN es[c.i] ELSE EAny), <<fnEv>>)
             [] c.mode = "raise" -> R(over(OfVal(c.v)), <<fnEv>>)   \* a raised error value is the call's value (C08)
-            [] c.mode = "exc" -> AbM("#ERROR!", <<>>, TRUE)        \* outcome left open (C01 only asks well-formedness)
+            [] c.mode = "exc" -> AbM("#ERROR!", <<[k |-> "xcall", name |-> f, args |-> args]>>, TRUE)
+                 \* the function is called and raises a host exception: no callFunction event, and
+                 \* the outcome is left open (C01 only asks for a well-formed record)
      ELSE IF f \in Builtins THEN R(over(BuiltinExpect(f, args)), <<fnEv>>)
      ELSE Ab("#NAME?", <<>>)
 
@@ -173,12 +181,15 @@ Ev(n, env) ==
     [] n.k = "var" ->
          LET sv == LastNonBlank(SetVals(env.varsets, n.name), Blank)
              ev == <<[k |-> "var", name |-> n.name]>>
-         IN IF ~IsBlank(sv) THEN R(OfVal(sv), ev)
+         IN IF RaisesAt(env, "var:" \o n.name) THEN AbM("#ERROR!", ev, TRUE)
+            ELSE IF ~IsBlank(sv) THEN R(OfVal(sv), ev)
             ELSE IF n.name \in DOMAIN env.vars THEN R(OfVal(env.vars[n.name]), ev)
             ELSE Ab("#NAME?", ev)
     [] n.k = "cell" ->
+         IF RaisesAt(env, "cell:*") THEN AbM("#ERROR!", <<CellEvent(n.s)>>, TRUE) ELSE
          R(OfVal(LastNonBlank(SetVals(env.cellsets, PlainKey(n.s)), Blank)), <<CellEvent(n.s)>>)
     [] n.k = "range" ->
+         IF RaisesAt(env, "range:*") THEN AbM("#ERROR!", <<RangeEvent(n.a, n.b)>>, TRUE) ELSE
          R(OfVal(LastNonBlank(SetVals(env.rangesets, RangeKey(n.a, n.b)), Blank)), <<RangeEvent(n.a, n.b)>>)
     [] n.k = "arr" -> LET r == EvSeq(n.items, env) IN
                       IF r.ab # "" THEN AbM(r.ab, r.ev, r.may)
@@ -187,6 +198,11 @@ Ev(n, env) ==
                        IF r.ab # "" THEN AbM(r.ab, r.ev, r.may)
                        ELSE LET c == CallExpect(n.f, r.es, env) IN
                             [ab |-> c.ab, e |-> c.e, ev |-> r.ev \o c.ev, may |-> r.may \/ c.may]
+
+(* public events (what listeners see) and custom-function invocations of an *)
+(* expected event sequence ("xcall" = invoked, raised, no event)             *)
+Pub(ev) == SelectSeq(ev, LAMBDA x : x.k # "xcall")
+CustomCalls(ev, env) == SelectSeq(ev, LAMBDA x : x.k \in {"fn", "xcall"} /\ x.name \in DOMAIN env.funcs)
 
 (* the outcome of Parser.parse for a tree: expectation for the top value   *)
 TopExpect(n, env) == LET r == Ev(n, env) IN
